@@ -84,13 +84,30 @@ def tri(chk, rule, cons, res, run, rec, what):
     return ok
 
 
-def storage_values(st, v):
-    """possible StorageType tokens of a storage-valued expression value, or None"""
+def alias_attr(st, v):
+    """the attribute of the schedule (`self.x`) that the value is certainly equal to, if any"""
+    s = pure_sym(v)
+    if s is None:
+        return None
+    if s.startswith("self."):
+        return s
+    for a in sorted(st.symbols() | set(st.enums)):
+        if a.startswith("self.") and st.entails_eq(v - Lin.sym(a)) == "yes":
+            return a
+    return None
+
+
+def storage_values(st, v, cfg=None):
+    """possible StorageType tokens of a storage-valued expression value, or None;
+    cfg: attribute valuation of the configuration under consideration"""
     if isinstance(v, Tok):
         return {v.v}
     s = pure_sym(v)
     if s is not None:
-        e = st.enum_get(s)
+        a = alias_attr(st, v)
+        if cfg and a in cfg:
+            return {cfg[a]}
+        e = st.enum_get(s) or (st.enum_get(a) if a else None)
         if e and e[0] == "in":
             return set(e[1])
     return None
